@@ -183,7 +183,7 @@ func TestC08(t *testing.T) {
 		var want []emitted
 		inconclusive := ""
 		inBubble(c, func(t *testing.T) {
-			kubeeventsmanager.DefaultFactoryStore.Reset()
+			kubeeventsmanager.DefaultFactoryStore = kubeeventsmanager.NewFactoryStore()
 			ctx, cancel := context.WithCancel(context.Background())
 			vc := vlib.NewVCluster()
 			vc.EnsureNamespace("default", nil)
